@@ -150,7 +150,7 @@ theorem no_secret_path_per_role :
     not typed.  So a hidden input is typed only directly after every earlier event got its expected
     (password) prompt.  REMAINING ENVIRONMENT ASSUMPTION: the device does not echo at that prompt. -/
 theorem hidden_input_typed_only_at_its_prompt {cfg : Chan.Cfg} {complete : List Bytes}
-    (hstrict : cfg.rough = false) (hret : cfg.ret = [Chan.NL]) (hc : complete ≠ [])
+    (hstrict : cfg.rough = false) (hret : Chan.IsRet cfg.ret) (hc : complete ≠ [])
     (pre : List (Chan.Ev × Chan.Step)) (ev : Chan.Ev) (st : Chan.Step)
     (post : List (Chan.Ev × Chan.Step)) (extra : List Chan.Step)
     (hg : ∀ p ∈ pre ++ (ev, st) :: post, ∃ Pr Pc, Chan.GoodStep cfg complete Pr Pc p.1 p.2)
@@ -158,7 +158,7 @@ theorem hidden_input_typed_only_at_its_prompt {cfg : Chan.Cfg} {complete : List 
     (hearly : ∃ e ∈ pre, e.2.isResp = false) :
     ∃ res w' rest, Chan.sendInputsInteract cfg Chan.scriptDev ((pre ++ (ev, st) :: post).map (·.1)) complete
         (w, (pre ++ (ev, st) :: post).map (·.2) ++ extra) = some (res, (w', rest)) ∧
-      ∃ done, done <+: pre ∧ w'.writes = w.writes ++ (done.map (fun p => [p.1.1, [Chan.NL]])).flatten :=
+      ∃ done, done <+: pre ∧ w'.writes = w.writes ++ (done.map (fun p => [p.1.1, cfg.ret])).flatten :=
   Chan.input_not_typed_after_session_end hstrict hret hc pre ev st post extra hg w hres hheld hearly
 
 /-! Non-vacuity of the generic theorems on a concrete small graph:
